@@ -384,6 +384,7 @@ func TestHvcReplay(t *testing.T) {
 `
 
 type RacRun struct {
+	UnitOutput string
 	Lines   []string // raw RAC-* lines in order
 	ByInput map[int][]string
 	Output  string
@@ -392,7 +393,19 @@ type RacRun struct {
 // runRAC executes the replay driver over the corpus with the RAC overlay of
 // the current tree. Everything is written to a scratch directory outside
 // /repo and /verif/hvc and removed afterwards.
+// unitTests: in-package test files (path relative to root -> source) run in
+// addition to the text-driven replay; their output lines are returned in
+// UnitOutput keyed by package directory.
+type unitTest struct {
+	pkgDir string // relative to root, e.g. homescript/lexer
+	source string
+}
+
 func runRAC(root string, corpus []string, stages string, timeout time.Duration) (*RacRun, error) {
+	return runRACWithUnits(root, corpus, stages, timeout, nil)
+}
+
+func runRACWithUnits(root string, corpus []string, stages string, timeout time.Duration, units []unitTest) (*RacRun, error) {
 	scratch, err := os.MkdirTemp(scratchBase(), "hvc-rac-")
 	if err != nil {
 		return nil, err
@@ -433,6 +446,11 @@ func runRAC(root string, corpus []string, stages string, timeout time.Duration) 
 	if err := add(filepath.Join(root, "homescript", "zz_hvc_replay_test.go"), []byte(replayDriver)); err != nil {
 		return nil, err
 	}
+	for i, u := range units {
+		if err := add(filepath.Join(root, u.pkgDir, fmt.Sprintf("zz_hvc_unit%d_test.go", i)), []byte(u.source)); err != nil {
+			return nil, err
+		}
+	}
 	ov, _ := json.Marshal(map[string]any{"Replace": replace})
 	ovPath := filepath.Join(scratch, "overlay.json")
 	os.WriteFile(ovPath, ov, 0o644)
@@ -455,7 +473,20 @@ func runRAC(root string, corpus []string, stages string, timeout time.Duration) 
 			res.ByInput[cur] = append(res.ByInput[cur], ln)
 		}
 	}
-	if !strings.Contains(string(out), "RAC-INPUT") {
+	// unit replays: one go test run per package
+	done := map[string]bool{}
+	for _, u := range units {
+		if done[u.pkgDir] {
+			continue
+		}
+		done[u.pkgDir] = true
+		uc := exec.Command("go", "test", "-tags", "verif", "-overlay", ovPath, "-vet=off", "-count=1", "-v", "-timeout", "60s", "-run", "^TestHvcUnit", "./"+u.pkgDir+"/")
+		uc.Dir = root
+		uc.Env = cmd.Env
+		uout, _ := uc.CombinedOutput()
+		res.UnitOutput += string(uout)
+	}
+	if len(corpus) > 0 && !strings.Contains(string(out), "RAC-INPUT") {
 		return res, fmt.Errorf("replay driver did not run:\n%s", tail(string(out), 2000))
 	}
 	return res, nil
